@@ -9,6 +9,7 @@
 from __future__ import annotations
 
 import asyncio
+import os
 import datetime as _dt
 import gc
 import io
@@ -444,13 +445,40 @@ async def run_mqtt(ctx) -> None:
     await proto.wait_for_connection_made(timeout=3)
     want = []
     r = plan.rng("mqtt")
+    # the host's time zone: ramses_esp stamps its messages with zone-aware times, which the transport converts to the host's
+    # (naive) local time -- a message stamped 'now' must be 'now' here too, whatever the zone (C14: never born old or in the future)
+    import os
+    import time as _time
+
+    tzname, tzoff = plan.decide("host_tz", lambda rr: rr.choice([["UTC", 0], ["UTC", 0], ["JST-9", 9], ["EST5", -5], ["IST-5:30", 5.5]]), ["UTC", 0])
+    os.environ["TZ"] = tzname
+    _time.tzset()
+    if tzoff:
+        ctx.hub.count("host_not_on_utc")
+    try:
+        await _mqtt_lines(ctx, plan, lines, cl, topic, want, msgs, tzoff)
+    finally:
+        os.environ["TZ"] = "UTC"
+        _time.tzset()
+    await _mqtt_end(ctx, plan, lines, want, got, tr)
+
+
+async def _mqtt_lines(ctx, plan, lines, cl, topic, want, msgs, tzoff) -> None:
+    from ..rf import FakeMqttMessage
+
     for i, s in enumerate(lines):
         ts = dtm_of(i)
-        mode = plan.decide(f"mq{i}", lambda rr: rr.choice(["ok"] * 8 + ["tz", "badjson", "z"]), "ok")
+        mode = plan.decide(f"mq{i}", lambda rr: rr.choice(["ok"] * 8 + ["tz", "badjson", "z", "now_aware", "now_aware"]), "ok")
         if mode == "tz":
             ts += "+01:00"
         if mode == "z":
             ts += "Z"
+        now_local = None
+        if mode == "now_aware":  # the gateway's clock agrees with ours: the same instant, written as a UTC-aware time
+            await asyncio.sleep(0.001)  # (what was received so far has reached the handler)
+            now_local = T.dt.now()
+            ts = (now_local - _dt.timedelta(hours=tzoff)).isoformat(timespec="microseconds") + "+00:00"
+        n_msgs = len(msgs)
         body = json.dumps({"ts": ts, "msg": s}).encode()
         if mode == "badjson":
             body = body[: max(1, len(body) // 2)]
@@ -471,8 +499,21 @@ async def run_mqtt(ctx) -> None:
         except Exception as err:  # noqa  -- would kill paho's network thread
             ctx.violate("C01", "mqtt_callback_raised", exc_sig(err), f"_on_message raised {type(err).__name__}: {err} for "
                         f"{body[:200]!r}")
+        if now_local is not None:
+            await asyncio.sleep(0.001)
+            for m in msgs[n_msgs:]:
+                off = (m.dtm - now_local).total_seconds()
+                if abs(off) > 2.0:
+                    ctx.violate("C14", "born_old_or_in_the_future", "mqtt", f"a message stamped 'now' ({ts}) by the MQTT gateway is dated "
+                                f"{m.dtm.isoformat()} on a host in zone {os.environ.get('TZ')} whose clock reads {now_local.isoformat()}: "
+                                f"{off:+.0f} s off, so its lifetime is mis-measured by that much")
+                else:
+                    ctx.probe("aware_timestamps_dated_now")
         if i % 7 == 0:
             await asyncio.sleep(0.01)
+
+
+async def _mqtt_end(ctx, plan, lines, want, got, tr) -> None:
     await asyncio.sleep(0.1)
     if got != want:
         i = next((i for i, (a, b) in enumerate(zip(got, want)) if a != b), min(len(got), len(want)))
